@@ -1,7 +1,7 @@
 (* C15 — property theorems (statements only; proofs live in Proofs.v). *)
 From Coq Require Import ZArith NArith QArith Bool List.
 Require Import QV.C15.Model QV.C15.Spec QV.C15.ModelQ QV.C15.Proofs QV.C15.Proofs_upd QV.C15.Proofs_prep QV.C15.Proofs_q
-  QV.C15.Proofs_parse QV.C15.Proofs_e2e QV.C15.ModelMC QV.C15.Proofs_mc.
+  QV.C15.Proofs_parse QV.C15.Proofs_e2e QV.C15.ModelMC QV.C15.Proofs_mc QV.C15.ModelF QV.C15.Proofs_f QV.C15.Proofs_split.
 Import ListNotations.
 Open Scope Z_scope.
 
@@ -376,3 +376,106 @@ Theorem C15_make_compatible_keeps_counts_refuted : exists t' tr,
   make_compatible false ex_al 576 16 ex_mc_baked = Ok (t', false, tr) /\ cvols ex_mc_baked <> [] /\ cvols t' = [].
 Proof. exact make_compatible_current_loses_count. Qed.
 Print Assumptions C15_make_compatible_keeps_counts_refuted.
+
+(* ---- counts evaluated in floating point (ModelF.v; round 4) ---- *)
+(* the value of the count expression is a double (or an exact rational), any value: whenever a fresh instantiation
+   accepts it (checked_int_cast: within 1e-6 of an integer), the update path (VolatileRepetitionCount.__int__: round,
+   clamp) yields the same count - also for values a hair below the integer such as 0.3 / 0.1 *)
+Theorem C15_float_update_is_fresh : forall fl q c, count_fresh_tol fl q = Some c -> count_update q = c.
+Proof. exact count_fresh_tol_update. Qed.
+Print Assumptions C15_float_update_is_fresh.
+
+(* the assertion int(repetition_definition) == repetition_count in _internal_create_program never fails: instantiation
+   with a volatile count fails only where checked_int_cast rejects the value *)
+Theorem C15_float_assertion_holds : forall fl q, inst_volatile fl q = None <-> count_fresh_tol fl q = None.
+Proof. exact inst_volatile_no_assert. Qed.
+Print Assumptions C15_float_assertion_holds.
+
+(* the tolerance tests are consistent: an update without the "no integer" warning (is_integer, strict <) lands on a
+   value a fresh instantiation accepts (checked_int_cast, rejects only >), with the same count *)
+Theorem C15_float_no_warning_is_fresh : forall fl q,
+  is_integer_f fl q = true -> count_fresh_tol fl q = Some (count_update q).
+Proof. exact is_integer_fresh. Qed.
+Print Assumptions C15_float_no_warning_is_fresh.
+
+(* ... they differ exactly on the boundary |x - round x| = 1e-6 (warning, but accepted; equal counts) *)
+Theorem C15_float_tolerance_boundary : exists q,
+  is_integer_f false q = false /\ count_fresh_tol false q = Some (count_update q) /\ count_update q = 3.
+Proof. exact tolerance_boundary. Qed.
+Print Assumptions C15_float_tolerance_boundary.
+
+(* non-vacuity and the reason for rounding: 0.3 / 0.1 evaluated in binary64 is below 3 by less than 1e-6; is_integer
+   holds, instantiation and update give 3, truncation (int(value)) would give 2; on exact rationals the quotient is 3 *)
+Theorem C15_float_truncate_refuted : exists q,
+  evalF true env_03_01 (FDiv (FVar 4%N) (FVar 5%N)) = Some q /\ (q < 3)%Q /\ (3 - q < EPS)%Q /\
+  is_integer_f true q = true /\ inst_volatile true q = Some (Some 3) /\ count_update q = 3 /\
+  count_update_trunc true q = 2 /\
+  evalF false (fun x => if (x =? 4)%N then Some (3 # 10)%Q else Some (1 # 10)%Q) (FDiv (FVar 4%N) (FVar 5%N)) = Some 3%Q.
+Proof. exact float_quotient_below_three. Qed.
+Print Assumptions C15_float_truncate_refuted.
+
+(* round-to-nearest-even to 53 bits is the identity on integers below 2^53 ... *)
+Theorem C15_float_round53_integers : forall z, Z.abs z < 2 ^ 53 -> (round53 (inject_Z z) == inject_Z z)%Q.
+Proof. exact round53_int. Qed.
+Print Assumptions C15_float_round53_integers.
+
+(* ... hence the integer model (Model.v: eval) is the restriction of the float model to integer parameter values whose
+   intermediate results stay below 2^53 (integer values handed over as float / numpy.float64 / TimeType), and on an
+   integer value both paths give max(0, z) without a warning *)
+Theorem C15_float_integer_restriction : forall fl env e,
+  bounded53 env e = true ->
+  evalF fl (fun x => option_map inject_Z (env x)) (fexpr_of e) = option_map inject_Z (eval env e).
+Proof. exact evalF_integer. Qed.
+Print Assumptions C15_float_integer_restriction.
+
+Theorem C15_float_counts_on_integers : forall fl z,
+  count_fresh_tol fl (inject_Z z) = Some (Z.max 0 z) /\ count_update (inject_Z z) = Z.max 0 z /\
+  update_warns fl (inject_Z z) = false.
+Proof. exact float_counts_integer. Qed.
+Print Assumptions C15_float_counts_on_integers.
+
+(* on exactly integer values the tolerance model coincides with the exact rational model of ModelQ.v *)
+Theorem C15_float_exact_restriction : forall fl q, is_intQ q = true -> count_fresh_tol fl q = count_fresh q.
+Proof. exact count_fresh_tol_exact. Qed.
+Print Assumptions C15_float_exact_restriction.
+
+(* ---- Loop.split_one_child / _check_partial_unroll (round 4, seed C15-6) ---- *)
+(* the child split_one_child picks has count > 1, and it has a VOLATILE count only if every child that could be split at
+   all is volatile: a fixed repeated entry is always preferred *)
+Theorem C15_split_prefers_fixed : forall ch i,
+  split_index ch = Some i ->
+  exists c, nth_error ch i = Some c /\ 1 < cnt c /\
+    (is_vol (rep_of c) = true ->
+     forall j c', nth_error ch j = Some c' -> 1 < cnt c' -> is_vol (rep_of c') = true).
+Proof. exact split_index_spec. Qed.
+Print Assumptions C15_split_prefers_fixed.
+
+(* input-level sufficient condition for "the preparation keeps volatility" in the splitting loop: when the fixed
+   repeated entries can absorb the missing table length (fixed_cap = sum of count - 1 over the fixed entries with
+   count > 1), _check_partial_unroll adds no VolatileModificationWarning, i.e. no volatile entry is frozen *)
+Theorem C15_partial_unroll_keeps_volatile : forall st mn warn st' w' d,
+  check_partial_unroll st mn warn = Ok (Some (st', w', d)) ->
+  let total := fold_right (fun c acc => cnt c + acc) 0 (kids st) in
+  let ch1 := if total <? mn then unrolled st else kids st in
+  mn - Z.of_nat (length ch1) <= fixed_cap ch1 ->
+  w' = warn.
+Proof. exact check_partial_unroll_keeps_volatile. Qed.
+Print Assumptions C15_partial_unroll_keeps_volatile.
+
+(* non-vacuity: 2 x (3 x a ; n x b), n = 4 volatile, min_seq_len 3 - the fixed entry is split, n stays volatile *)
+Theorem C15_partial_unroll_nonvacuous :
+  check_partial_unroll ex_split_table 3 false =
+    Ok (Some (Node (Fixed 2) false None
+                [Node (Fixed 2) false (Some 0%N) []; Node (Fixed 1) false (Some 0%N) []; Node ex_vol4 false (Some 1%N) []],
+              false, DUnroll false [0%nat])) /\
+  3 - Z.of_nat (length (kids ex_split_table)) <= fixed_cap (kids ex_split_table).
+Proof. exact split_example_keeps. Qed.
+Print Assumptions C15_partial_unroll_nonvacuous.
+
+(* without fixed capacity the hypothesis cannot be dropped: 2 x (a ; n x b) - the volatile entry is split, a warning is
+   raised and no entry of the table is volatile afterwards *)
+Theorem C15_partial_unroll_refuted : exists st',
+  check_partial_unroll ex_split_table_vol_only 3 false = Ok (Some (st', true, DUnroll false [1%nat])) /\
+  forallb (fun c => negb (is_vol (rep_of c))) (kids st') = true /\ fixed_cap (kids ex_split_table_vol_only) = 0.
+Proof. exact split_example_freezes. Qed.
+Print Assumptions C15_partial_unroll_refuted.
